@@ -24,7 +24,8 @@ func RaceChild(seed uint64) int {
 		}
 	}
 	for round := 0; round < 3; round++ {
-		ops := sc.ops(nil)
+		// Two instances of every operation: the same dialect's code runs on several goroutines at once.
+		ops := append(sc.ops(nil), sc.ops(nil)...)
 		errs := make([]error, len(ops))
 		var wg sync.WaitGroup
 		for i := range ops {
@@ -40,7 +41,7 @@ func RaceChild(seed uint64) int {
 				fmt.Printf("mismatch: %s fails when run concurrently: %v\n", o.name, errs[i])
 				return 3
 			}
-			if string(o.out) != string(base[i].out) {
+			if string(o.out) != string(base[i%len(base)].out) {
 				fmt.Printf("mismatch: %s gives different bytes when run concurrently with unrelated operations\n", o.name)
 				return 3
 			}
